@@ -1,4 +1,4 @@
-"""Sidecar contract: GraphOrderingPrinciple / OrderingPrinciple, default (non-compact) representation (C03, C08, C10).
+"""Sidecar contract: GraphOrderingPrinciple / OrderingPrinciple, both representations (C03, C08, C10).
 
 PROVED for every simple graph and every value of `total`, `plant`, `knuth`, both formula classes, for an arbitrary assignment a:
 a satisfies the formula iff ALL of the documented axioms hold - none missing, none extra -
@@ -9,7 +9,10 @@ a satisfies the formula iff ALL of the documented axioms hold - none missing, no
   (total)  x[v1,v2] or x[v2,v1] for all v1 < v2, when `total`
 with n(n-1) variables.  The loop over permutations(V, 3) is verified as the three nested range loops over V that keep the
 triples without repetition (conformance cases perm_order / perm_count5); OrderingPrinciple is the same call on the complete graph.
-NOT covered here: the compact representation (`smart`), unsatisfiability itself (bounded tier).
+The compact representation (`smart`: one variable per unordered pair) is the second variant of the contract: the minimum clause of
+v is built literal by literal (x[u,v] for a neighbour u < v, the negation of x[v,u] otherwise - the invariant identifies the list
+built so far with the first entries of the documented clause), and for all v1 < v2 < v3 the two clauses excluding a 3-cycle.
+NOT covered here: unsatisfiability itself (bounded tier).
 ASSUMED: the permutations group allocation and call contract (C11: x(u, v) is a variable of the formula for u != v in 1..n),
 the neighbour view of the graph (C16), the interface meaning of add_clause (C04).
 """
@@ -20,6 +23,7 @@ G_ = 'cnfgen/graphs.py'
 
 CLASSMODELS = {
     'PermO': {'file': V_, 'real': 'WordOfIndicesVariables', 'fields': {'gid': 'int', 'n': 'int'}},
+    'CombO': {'file': V_, 'real': 'WordOfIndicesVariables', 'fields': {'gid': 'int', 'n': 'int', 'comb': 'int'}},
     'FormulaO': {'file': F_, 'real': 'CNF', 'fields': {'store': 'mclist', '_numvar': 'int', 'cls': 'int', 'header': 'opaque'}},
     'GraphO': {'file': G_, 'real': 'Graph', 'fields': {'gid': 'int', 'n': 'int', 'name': 'opaquestr'}, 'invariant': ['self.n >= 0']},
 }
@@ -102,11 +106,23 @@ CONTRACTS = {
         'raises': {'ValueError': 'check and haszero(clause)'}, 'modifies': ['self.store', 'self._numvar'],
         'ensures': ['sat(a, self.store) == (sat(a, old(self.store)) and count(a, clause) >= 1)',
                     'self._numvar == ite(check, zmax(old(self._numvar), maxabs(clause)), old(self._numvar))']},
+    (F_, 'FormulaO.new_combinations'): {
+        'assumed': 'group allocation (C11): one fresh variable per pair u < v of 1..n; each is a variable of the formula',
+        'params': {'n': 'int', 'k': 'int', 'label': 'any'}, 'supports': ['k == 2'], 'requires': ['n >= 0'],
+        'modifies': ['self._numvar'], 'returns': 'obj:CombO',
+        'ensures': ['result.n == n', '2 * self._numvar == 2 * old(self._numvar) + n * (n - 1)',
+                    'forall(lambda u, v: implies(1 <= u and u < v and v <= n, 1 <= cvar(result.gid, u, v) and cvar(result.gid, u, v) <= self._numvar), '
+                    'lambda u, v: cvar(result.gid, u, v))']},
+    (V_, 'CombO.__call__'): {'assumed': 'group call contract (C11): x(u, v) is the variable of the pair u < v; refused iff (u, v) is not an index',
+                             'params': {}, 'supports': ['len(pattern) == 2'],
+                             'raises': {'ValueError': 'not (1 <= pattern[0] and pattern[0] < pattern[1] and pattern[1] <= self.n)'},
+                             'returns_expr': 'cvar(self.gid, pattern[0], pattern[1])'},
     (O, 'GraphOrderingPrinciple'): {
         'property': ['C03', 'C08', 'C10'],
         'params': {'graph': 'obj:GraphO', 'total': 'bool', 'smart': 'const:False', 'plant': 'bool', 'knuth': 'int', 'formula_class': 'class:FormulaO'},
         'ghost_params': {'a': 'asg'},
         'raises': {}, 'returns': 'obj:FormulaO',
+        'variants': {'plain': {}},
         'loops': {
             0: dict(FR, ghost_at_entry={'S0': 'gop.store'},
                     inv=KEEP + [acc('S0', 'forall(lambda v: implies(1 <= v and v <= _it, {}))'.format(amin('v')))]),
@@ -146,4 +162,56 @@ CONTRACTS[(O, 'OrderingPrinciple')] = {
     'ghost_params': {'a': 'asg'},
     'raises': {'ValueError': 'size < 0'},
     'ensures': [e.replace('graph.', KG + '.') for e in _GOP['ensures'][:1]] + ['{}.n == size'.format(KG), 'result._numvar == size * (size - 1)', 'result.cls == formula_class'],
+}
+
+
+# ---- the compact representation (smart=True): one variable per unordered pair, x[u,v] for u < v meaning "u before v" ------------
+XC = 'created("CombO", 0)'
+NB = 'nbrs(graph.gid, {v})'
+# the literal the code appends for neighbour u of v: x[u,v] if u < v, the negation of x[v,u] otherwise
+LITC = 'ite(iget({nb}, j) < {v}, cvar({x}.gid, iget({nb}, j), {v}), -cvar({x}.gid, {v}, iget({nb}, j)))'
+SINC = 'iofarr(lam1(lambda j: {lit}), {n})'
+
+
+def sinc(v, n=None):
+    nb = NB.format(v=v)
+    return SINC.format(lit=LITC.format(nb=nb, v=v, x=XC), n=n if n is not None else 'ilen({})'.format(nb))
+
+
+def xc(u, v):
+    return 'lit_true(a, cvar({}.gid, {}, {}))'.format(XC, u, v)
+
+
+def tri(v1, v2, v3):
+    a_, b_, c_ = xc(v1, v2), xc(v2, v3), xc(v1, v3)
+    return '(({a} or {b} or not {c}) and (not {a} or not {b} or {c}))'.format(a=a_, b=b_, c=c_)
+
+
+def sminc(v):
+    return '(({v}) == n and plant) or count(a, {inc}) >= 1'.format(v=v, inc=sinc(v))
+
+
+KEEPC = ['2 * gop._numvar == n * (n - 1)', 'n >= 0', 'n == graph.n']
+Q1 = 'forall(lambda v1, v2, v3: implies(1 <= v1 and v1 <= _a and v1 < v2 and v2 < v3 and v3 <= n, {}))'.format(tri('v1', 'v2', 'v3'))
+Q2 = 'forall(lambda v2, v3: implies(_a + 1 < v2 and v2 <= _a + 1 + _b and v2 < v3 and v3 <= n, {}))'.format(tri('(_a + 1)', 'v2', 'v3'))
+Q3 = 'forall(lambda v3: implies(_a + 2 + _b < v3 and v3 <= _a + 2 + _b + _it, {}))'.format(tri('(_a + 1)', '(_a + 2 + _b)', 'v3'))
+_GOP['variants']['compact'] = {
+    'params': {'smart': 'const:True'},
+    'loops': {
+        0: dict(FR, ghost_at_entry={'S0': 'gop.store'},
+                inv=KEEPC + [acc('S0', 'forall(lambda v: implies(1 <= v and v <= _it, {}))'.format(sminc('v')))]),
+        # the clause of v is built literal by literal: after _it neighbours it is the first _it entries of the documented clause
+        1: {'inv': ['len(clause) == _it', 'iofarr(clause, len(clause)) == {}'.format(sinc('v', '_it'))]},
+        2: {'nest': [dict(FR, counter='_a', ghost_at_entry={'S2': 'gop.store'}, inv=KEEPC + [acc('S2', Q1)]),
+                     dict(FR, counter='_b', inv=KEEPC + [acc('S2', '({} and {})'.format(Q1, Q2))]),
+                     dict(FR, inv=KEEPC + [acc('S2', '({} and {} and {})'.format(Q1, Q2, Q3))])]},
+    },
+    'ensures!': [
+        'sat(a, result.store) == ('
+        'forall(lambda v: implies(1 <= v and v <= graph.n, {MIN})) and '
+        'forall(lambda v1, v2, v3: implies(1 <= v1 and v1 < v2 and v2 < v3 and v3 <= graph.n, {T})))'.format(
+            MIN=sminc('v').replace('== n and', '== graph.n and'), T=tri('v1', 'v2', 'v3')),
+        '2 * result._numvar == graph.n * (graph.n - 1)',
+        'result.cls == formula_class',
+    ],
 }
